@@ -306,6 +306,9 @@ func tornCheck(r *ev.Run, root, id string, sp *spec) {
 			}
 			if ok, why := tornFeasible(reads, lo, hi); !ok {
 				torn++
+				if os.Getenv("C10_DEBUG") != "" {
+					fmt.Fprintf(os.Stderr, "TORN %s mode=%s lo=%d hi=%d reads=%+v why=%s\n", sp.name, mode, lo, hi, reads, why)
+				}
 				if sp.judgeTorn && tornReported < 3 {
 					tornReported++
 					r.Violation("batch-torn/"+sp.site, fmt.Sprintf("[%s] a reader saw part of a batch (%s): %s", sp.name, mode, why), witness)
@@ -337,7 +340,6 @@ func tornCheck(r *ev.Run, root, id string, sp *spec) {
 	if overlapping > 0 {
 		r.Note("torn_reads_overlapping_a_commit", sp.name)
 	}
-	r.Distinct(fmt.Sprintf("torn/%s/%d/%d", sp.name, rounds, overlapping))
 }
 
 // ------------------------------------------------------------ a batch whose commit fails
@@ -471,7 +473,6 @@ func failedBatchCheck(r *ev.Run, root, id string, sp *spec) {
 				if cerr != nil {
 					r.Note("failed_batch_forced", sp.name)
 				}
-				r.Distinct(fmt.Sprintf("failbatch/%s/%v", sp.name, ms))
 			}()
 		}
 	case sp.buffered && sp.base != "sqlite":
